@@ -106,6 +106,9 @@ class BuiltinMixin:
         vals = [self.eval(x, st) for x in e.elts]
         if not vals:
             return self.new_list(None, st)
+        if any(v.ty == FN for v in vals):
+            # a literal list of functions / classes (a dispatch table): kept as a static sequence
+            return Val(TupleT([v.ty for v in vals]), vals, was_list=True)
         try:
             ety = self.join_types([v.ty for v in vals])
         except Unsupported:
@@ -1081,6 +1084,93 @@ class BuiltinMixin:
         if m is None:
             raise Unsupported(f"method {ty}.{name}")
         return m(recv, args, kw, st, node)
+
+    # -- str methods ------------------------------------------------------------------------------------------
+    def _char_class(self, recv, name, st):
+        """str.isdecimal/isalpha/isdigit/isspace/isalnum: an uninterpreted predicate of the string (T-UNICODE: which
+        characters belong to a class is Unicode's business); false on the empty string, as in Python."""
+        self.trusted_used.add("T-UNICODE: str.isdecimal/isalpha/isdigit/isspace are uninterpreted predicates of the string (false on '')")
+        f = z3.Function("str_" + name, S, B)
+        st.assume(z3.Not(f(z3.StringVal(""))))
+        return Val(BOOL, f(recv.t))
+
+    def string_fold_facts(self, a, c, st):
+        """all_decimal(s) is defined by all_decimal('') and all_decimal(s + c) == (all_decimal(s) and c.isdecimal()) for a
+        one-character c: the instance for this concatenation (no quantified string axiom is ever given to the solvers)."""
+        alld, isd = z3.Function("str_all_isdecimal", S, B), z3.Function("str_isdecimal", S, B)
+        st.assume(alld(z3.StringVal("")))
+        st.assume(z3.Implies(z3.Length(c) == 1, alld(z3.Concat(a, c)) == z3.And(alld(a), isd(c))))
+
+    def x_bi_all_decimal(self, args, kw, st, node):
+        """Specification: every character of the string is a decimal digit (vacuously true of '')."""
+        ax = z3.Function("str_all_isdecimal", S, B)(z3.StringVal(""))
+        if not any(ax.eq(x) for x in self.axioms):
+            self.axioms.append(ax)
+        return Val(BOOL, z3.Function("str_all_isdecimal", S, B)(args[0].t))
+
+    def int_of_str(self, v, st, line=None):
+        """int(s): does not raise when s is a non-empty string of decimal digits (any Unicode Nd characters: T-UNICODE /
+        A-INT); for any other string it may raise ValueError.  The value is an uninterpreted function of the text."""
+        self.trusted_used.add("A-INT: int(s) succeeds on a non-empty string all of whose characters satisfy str.isdecimal; otherwise it may raise ValueError")
+        ok = z3.And(z3.Function("str_all_isdecimal", S, B)(v.t), z3.Length(v.t) > 0)
+        st.raise_if(z3.And(z3.Not(ok), fresh("int_rejects", B)), "ValueError", line)
+        return Val(INT, z3.Function("str_to_int", S, I)(v.t))
+
+    def m_str_isdecimal(self, recv, args, kw, st, node):
+        return self._char_class(recv, "isdecimal", st)
+
+    def m_str_isalpha(self, recv, args, kw, st, node):
+        return self._char_class(recv, "isalpha", st)
+
+    def m_str_isdigit(self, recv, args, kw, st, node):
+        return self._char_class(recv, "isdigit", st)
+
+    def m_str_isspace(self, recv, args, kw, st, node):
+        return self._char_class(recv, "isspace", st)
+
+    def m_str_strip(self, recv, args, kw, st, node):
+        """s.strip(): s == l + s.strip() + r for some (whitespace) l, r - an uninterpreted function of s with that
+        decomposition; l and r consist of str.isspace characters (uninterpreted, T-UNICODE): the result neither starts
+        nor ends with one, an empty result means the string was empty or starts and ends with one, and a string
+        that neither starts nor ends with one is its own strip."""
+        if args:
+            raise Unsupported("str.strip(chars)")
+        strip, lw, rw = z3.Function("str_strip", S, S), z3.Function("str_lws", S, S), z3.Function("str_rws", S, S)
+        t = recv.t
+        sp = z3.Function("str_isspace", S, B)
+        first = lambda x: z3.SubString(x, 0, 1)
+        last = lambda x: z3.SubString(x, z3.Length(x) - 1, 1)
+        r = strip(t)
+        empty = z3.StringVal("")
+        facts = [
+            t == z3.Concat(lw(t), r, rw(t)),
+            z3.Length(t) == z3.Length(lw(t)) + z3.Length(r) + z3.Length(rw(t)),      # (spelled out for the arithmetic solver)
+            strip(r) == r,
+            # what is stripped is white space (str.isspace) and nothing else
+            z3.Or(r == empty, z3.And(z3.Not(sp(first(r))), z3.Not(sp(last(r))))),
+            z3.Implies(r == empty, z3.Or(t == empty, z3.And(sp(first(t)), sp(last(t))))),
+            z3.Implies(z3.And(t != empty, z3.Not(sp(first(t))), z3.Not(sp(last(t)))), r == t),
+        ]
+        for f in facts:
+            if st.spec:
+                # facts about this application hold for every string: background facts of later obligations
+                if not any(f.eq(x) for x in self.axioms):
+                    self.axioms.append(f)
+            else:
+                st.assume(f)
+        return Val(STR, r)
+
+    def m_str_replace(self, recv, args, kw, st, node):
+        """s.replace(a, b) replaces every occurrence: an uninterpreted function of (s, a, b); never raises."""
+        if len(args) != 2 or any(a.ty != STR for a in args):
+            raise Unsupported("str.replace arguments")
+        f = z3.Function("str_replace_all", S, S, S, S)
+        return Val(STR, f(recv.t, args[0].t, args[1].t))
+
+    def m_str_find(self, recv, args, kw, st, node):
+        if len(args) != 1 or args[0].ty != STR:
+            raise Unsupported("str.find arguments")
+        return Val(INT, z3.IndexOf(recv.t, args[0].t, 0))
 
     def m_List_append(self, recv, args, kw, st, node):
         # rebind the receiver name if the element type was unknown
